@@ -18,6 +18,16 @@ from symex import values as V
 from vlib.api import all_of, any_of, truth
 
 
+def refs_cat(*parts):
+    from . import refs
+
+    return refs.cat(*parts)
+
+
+def _sb(x):
+    return x if isinstance(x, (bool, V.SymBool)) else bool(x)
+
+
 def seq_eq(a, b):
     """bytes equality -> bool | SymBool (no fork)"""
     if isinstance(a, (bytes, bytearray, memoryview)) and isinstance(b, (bytes, bytearray, memoryview)):
@@ -289,6 +299,74 @@ class World:
 
         return IdealAESGCM
 
+    # -- the same ideal AEAD through cryptography's streaming interface (Cipher(AES(key), GCM(nonce[, tag])).decryptor()/encryptor())
+    def streaming_stubs(world):
+        from cryptography.hazmat.primitives.ciphers import Cipher, algorithms, modes
+
+        class FakeAES:
+            def __init__(self, key):
+                if len(key) not in (16, 24, 32):
+                    raise ValueError("Invalid key size for AES.")
+                self.key = key
+
+        class FakeGCM:
+            def __init__(self, initialization_vector, tag=None, min_tag_length=16):
+                if not 8 <= len(initialization_vector) <= 128:
+                    raise ValueError("initialization_vector must be between 8 and 128 bytes")
+                if tag is not None and len(tag) < min_tag_length:
+                    raise ValueError("Authentication tag must be 16 bytes or longer.")
+                self.iv, self.tag = initialization_vector, tag
+
+        class Decryptor:
+            def __init__(self, key, mode):
+                self.key, self.mode, self.seen, self.done = key, mode, [], False
+
+            def authenticate_additional_data(self, data):
+                if len(data):
+                    raise NotImplementedError("AAD is not modelled")
+
+            def _record(self):
+                # the sealed message (under this key and nonce) whose ciphertext starts with what has been fed so far
+                fed = refs_cat(*self.seen) if self.seen else b""
+                for (k, nonce, ct), pt in world.aead:
+                    if truth(all_of([_sb(seq_eq(k, self.key)), _sb(seq_eq(nonce, self.mode.iv))])) and len(fed) <= len(ct) - 16 and truth(_sb(seq_eq(fed, ct[: len(fed)]))):
+                        return ct, pt
+                return None, None
+
+            def update(self, data):
+                off = sum(len(x) for x in self.seen)
+                self.seen.append(data)
+                ct, pt = self._record()
+                if ct is None:
+                    return world.fresh("garbage", len(data)) if len(data) else b""  # decrypting unauthentic data yields unrelated octets
+                return pt[off : off + len(data)]
+
+            def _finish(self, tag):
+                self.done = True
+                ct, pt = self._record()
+                fed = sum(len(x) for x in self.seen)
+                if ct is None or fed != len(ct) - 16 or tag is None or not truth(_sb(seq_eq(tag, ct[len(ct) - 16 :]))):
+                    raise InvalidTag()
+                return b""
+
+            def finalize(self):
+                return self._finish(self.mode.tag)
+
+            def finalize_with_tag(self, tag):
+                return self._finish(tag)
+
+        class FakeCipher:
+            def __init__(self, algorithm, mode, backend=None):
+                self.algorithm, self.mode = algorithm, mode
+
+            def decryptor(self):
+                return Decryptor(self.algorithm.key, self.mode)
+
+            def encryptor(self):
+                raise NotImplementedError("streaming encryption is not modelled")
+
+        return [(Cipher, FakeCipher), (algorithms.AES, FakeAES), (modes.GCM, FakeGCM)]
+
     def stubs(self, kdf_fn, kdf_concat_fn=None):
         """stub list: kdf_fn / kdf_concat_fn are dpapi_ng._crypto.kdf / kdf_concat (the wrappers themselves are C03's subject)"""
         pairs = [(kdf_fn, self.kdf), (AESGCM, self.aesgcm_class()), (os.urandom, self.urandom),
@@ -297,6 +375,7 @@ class World:
             pairs.append((kdf_concat_fn, self.kdf_concat))
         if self.t_ns is not None:
             pairs.append((time.time_ns, self.time_ns))
+        pairs += self.streaming_stubs()
         return pairs
 
 
